@@ -66,7 +66,9 @@ def generate(rng: Rng, n, tier="quick"):
     regs = [("lay", "{{#> inner}}x{{/inner}}|{{> @partial-block}}"), ("inner", "[{{> @partial-block}}]"),
             ("lay2", "{{> @partial-block}}{{#> inner}}y{{/inner}}{{> @partial-block}}"), ("slot", "<{{> @partial-block}}>")]
     operands = ["{{#> lay}}B{{/lay}}", "{{#> lay2}}C{{v}}{{/lay2}}", "{{#> lay}}{{#> lay2}}D{{/lay2}}{{/lay}}", "{{#> slot}}{{#> lay}}E{{/lay}}{{/slot}}",
-                "{{with o}}", "{{each o}}", "{{#> inner}}{{with o}}{{v}}{{/inner}}"]
+                "{{with o}}", "{{each o}}", "{{#> inner}}{{with o}}{{v}}{{/inner}}",
+                # a block call whose partial does not exist renders its own block (failover content)
+                "{{#> nosuch}}dflt{{v}}{{/nosuch}}", "{{#> lay}}{{#> nosuch}}F{{/nosuch}}{{/lay}}", "{{#> nosuch}}{{#> lay}}G{{/lay}}{{/nosuch}}"]
     dd = {"v": "V", "o": {"v": "inner"}}
     k = 0
     for A in operands:
@@ -82,7 +84,8 @@ def generate(rng: Rng, n, tier="quick"):
         out.append((c, {"mode": "repeat3", "A": A}))
         k += 1
     # … and the same pairs INSIDE the body of a partial called with a block (siblings there share what `@partial-block` denotes)
-    inner_ops = ["{{#> inner}}x{{/inner}}", "{{> @partial-block}}", "{{#> inner}}{{> @partial-block}}{{/inner}}", "{{#> slot}}s{{/slot}}", "{{v}}"]
+    inner_ops = ["{{#> inner}}x{{/inner}}", "{{> @partial-block}}", "{{#> inner}}{{> @partial-block}}{{/inner}}", "{{#> slot}}s{{/slot}}", "{{v}}",
+                 "{{#> nosuch}}dflt{{/nosuch}}", "{{#> nosuch}}{{#> inner}}n{{/inner}}{{/nosuch}}", "{{#> inner}}{{#> nosuch}}m{{/nosuch}}{{/inner}}"]
     for A in inner_ops:
         for B in inner_ops:
             ops = [{"op": "reg_string", "reg": 0, "name": nm, "src": sr} for nm, sr in regs]
